@@ -257,6 +257,8 @@ class R2AMonitor:
         loadp = lo and ac0
         if dn and not rs and (tv0 or lo): self.env_ok = False       # done with a beat pending / being loaded: outside the assumption
         if tv0 and not accepted and not rs and not tv1: return 'VALID dropped before the beat was accepted (no reset)', None
+        if rs and (tv1 or se1 or ac1): return 'reset did not clear VALID/sent/active (tvalid=%d sent=%d active=%d)' % (tv1, se1, ac1), None
+        if dn and (se1 or ac1): return 'done did not clear sent/active (sent=%d active=%d)' % (se1, ac1), None
         if not tv0 and tv1 and not loadp: return 'VALID raised without a load pulse while active', None
         if loadp: self.latest = x & ((1 << self.DW) - 1)
         if td1 != self.latest: return 'tdata=%d, value at the latest load pulse is %d' % (td1, self.latest), None
@@ -276,6 +278,8 @@ class R2AMonitor:
         if msg:
             return (msg, None) if self.env_ok else (None, msg)
         if self.counts and self.env_ok and self.acc > self.lds: return 'more beats accepted (%d) than load pulses (%d)' % (self.acc, self.lds), None
+        if rs:      # a reset clears VALID, sent and active (checked above): the adapter is back in its power-up state, start afresh
+            self.env_ok = True; self.acc = self.lds = 0
         return None, None
 
 
